@@ -117,7 +117,7 @@ var errDropExceptions = map[string]string{
 func (c *Ctx) errorsNotDropped(prop string) {
 	fams := errFamilies[prop]
 	n := 0
-	for _, fn := range c.Funcs {
+	for _, fn := range c.subjects() {
 		instrs(fn, func(_ *ssa.BasicBlock, _ int, ins ssa.Instruction) {
 			ci, ok := ins.(ssa.CallInstruction)
 			if !ok {
